@@ -7,6 +7,8 @@ PROPS_OPS = "RotoV.Props.C01"        # per-operator theorems T1–T3 (over Gener
 PROPS_DCE = "RotoV.Props.C01Dce"     # T4: dead-code elimination preserves execution
 PROPS_LOWER = "RotoV.Props.C01Lower" # T5: Spec value = value of the lowering model's structured MIR (composed with C08's simulation)
 PROPS_LIR = "RotoV.Props.C01Lir"     # LIR layer: the model of lir/lower.rs (scalar MIR CFG -> LIR CFG) preserves execution
+PROPS_MATCH = "RotoV.Props.C01Match" # match: Spec.evalArms is first-match; the guard chains of mir/lower/match_expr.rs (generated filters) are first-match
+MATCH_EXTRA = ["RotoV.Model.C01MatchLower", "RotoV.Model.Spec"]
 LIR_EXTRA = ["RotoV.Model.C01Lir", "RotoV.Lemmas.C01LirSim", "RotoV.Model.C01MirRun"]
 LOWER_EXTRA = ["RotoV.Model.C01Resolve", "RotoV.Model.C01MirRun", "RotoV.Lemmas.C01Agree", "RotoV.Lemmas.C01Shape",
                "RotoV.Lemmas.C01MirOps", "RotoV.Lemmas.C01SpecOps", "RotoV.Lemmas.C01MirComplete", "RotoV.Lemmas.C01ScalarCode", "RotoV.Model.TraceSpec", "RotoV.Model.LowerS", "RotoV.Lemmas.LowerS",
@@ -29,7 +31,7 @@ def run(ctx):
     import glob
     for f in glob.glob(os.path.join(common.VERIF, "evidence", "replays", "C01-*.json")):
         os.remove(f)
-    ctx.extract(["optables", "dce"])
+    ctx.extract(["optables", "dce", "c01match"])
     theorems, examples, axioms = [], 0, {}
     if os.path.exists(_ops_file()):
         ctx.prove(PROPS_OPS, extra_modules=["RotoV.Lemmas.Scalar", "RotoV.Model.RustStd", "RotoV.Model.Lir", "RotoV.Model.Clif"])
@@ -53,6 +55,11 @@ def run(ctx):
         theorems += ctx.coverage.get("theorems", [])
         examples += ctx.coverage.get("nonvacuity_examples", 0)
         axioms.update(ctx.coverage.get("axioms", {}))
+    if os.path.exists(os.path.join(common.LEAN, *PROPS_MATCH.split(".")) + ".lean"):
+        ctx.prove(PROPS_MATCH, extra_modules=MATCH_EXTRA)
+        theorems += ctx.coverage.get("theorems", [])
+        examples += ctx.coverage.get("nonvacuity_examples", 0)
+        axioms.update(ctx.coverage.get("axioms", {}))
     ctx.coverage["theorems"] = theorems
     ctx.coverage["nonvacuity_examples"] = examples
     ctx.coverage["axioms"] = axioms
@@ -70,18 +77,31 @@ def run(ctx):
         "the LIR layer (Props/C01Lir) is a theorem about Model/C01Lir.lean; that this model is lir/lower.rs on the scalar vocabulary rests "
         "on running it on the real MIR of every function of the class representatives and generated fragment programs and comparing with "
         "the real LIR (hook verif_hooks::c01::stage_pairs) on every run; its LIR semantics is this project's reading of the LIR",
+        "match_chains_first_match_partial (Props/C01Match) is a theorem about Model/C01MatchLower.lean, a hand model of the switch / "
+        "guard-chain arrangement of mir/lower/match_expr.rs whose decisions (chain filters, needs_default, guard switch case) are the "
+        "generated Generated/C01Match and whose source shape the translator checks fragment by fragment; that the compiled match behaves as "
+        "the arrangement says rests on the differential run of the match / match-order class representatives (JIT vs Spec) on every run; "
+        "enum values in Model/Spec carry constructor NAMES, the harness prints the same names into the Roto source",
         "the abstract CFG of Model/Dce.lean stands for mir::Item.blocks; its tie is the translator target `dce` plus running "
         "Dce.dce on the real pre-DCE CFG of every generated program (hook verif_hooks::c01::cfgs)",
     ]
     return ctx.finish(
         level="proof",
-        rule="operator table: every (operator, type) x boundary^2 + random operands, JIT vs Spec; programs: type-directed "
-             "generator (helpers, (mutual) recursion, while, if/else, early return, compound assignment, shadowing, dead code) x 30 "
+        rule="class representatives first (seed-independent, JIT vs Spec vs harness interpreter, bit patterns, NaNs canonicalised): "
+             "match — enums of 2..5 variants with and without payloads x every non-empty set of variants with arms of their own (+ `_`), "
+             "`_` alone, reversed, all+`_`, guarded arms of one variant, guards with effects, nested / examinee / arithmetic / loop / "
+             "parameter / unit forms, each run on EVERY variant; match-order — every well-typed sequence of <= 4 arms over variants and `_`, "
+             "guarded or not, on the built-in Option and user enums x every combination of guard outcomes x every variant; float — 66 nested "
+             "unary/binary operator shapes on f32/f64 x boundary operand pairs (+-0, +-1, +-inf, NaN, subnormals, MAX, equal operands). "
+             "operator table: every (operator, type) x boundary^2 + random operands, JIT vs Spec; programs: type-directed "
+             "generator (helpers, (mutual) recursion, while, if/else, early return, compound assignment, shadowing, dead code; every other "
+             "program declares enum types with 2..5 variants and matches on them: arm shapes incl. one variant + `_`, guards, nested) x 30 "
              "argument tuples (boundary, random, small); T5 tie: 16 class representatives (one per construct of the fragment) first, then "
              "generated i32/bool programs with variables named by level: Spec value = composed-model value = JIT value on every tuple, and "
              "the model's structured MIR = the real MIR dump of every function, the LIR model on the real MIR = the real LIR of every function, and mRun (real MIR) = lRun (model LIR) = Spec value; a class is distinct by (type, operator, outcome) in the table, by program "
              "text with >=1 execution where the Spec yields a value and the JIT agrees, by (construct set, arg type, ret type), or (t5:) by "
-             "construct set of a fragment program whose MIR comparison succeeded on all functions",
+             "construct set of a fragment program whose MIR comparison succeeded on all functions, or (rep:) by class representative with "
+             "the number of distinct results it was observed with",
         search=search,
     )
 
